@@ -249,6 +249,31 @@ def run(pid: str, tier: str, seed: int, selftest=False, replay=None) -> int:
         g = LoopGen(rng, dynamic_bounds=(k % 3 == 0), allocs=(k % 2 == 0))
         text, argdom = g.program()
         sources.append((f"gen:{seed}:{k}", text, argdom))
+    # systematic: the dimension of a subview feeds an allocation inside a loop - every combination of static / run-time offsets and sizes
+    # and both dimension indices (which run-time operand of the subview is the size that memref.dim returns?)
+    for o0 in ("0", "%c1", "%i"):
+        for o1 in ("0", "%c1"):
+            for s0 in ("2", "%n0", "%m0"):
+                for s1 in ("4", "%m0"):
+                    for idx in ("%c0", "%c1"):
+                        shape = "x".join("?" if z.startswith("%") else z for z in (s0, s1))
+                        svt = f"memref<{shape}xi8, strided<[?, 1], offset: ?>>"
+                        text = f"""builtin.module {{
+  func.func @f(%A: memref<?x?xi8>, %n0: index, %n1: index, %s0: index, %m0: index) {{
+    %c0 = arith.constant 0 : index
+    %c1 = arith.constant 1 : index
+    %c3 = arith.constant 3 : index
+    scf.for %i = %c0 to %c3 step %c1 {{
+      %sv = memref.subview %A[{o0}, {o1}] [{s0}, {s1}] [1, 1] : memref<?x?xi8> to {svt}
+      %d = memref.dim %sv, {idx} : {svt}
+      %b = memref.alloc(%d) {{alignment = 64 : i64}} : memref<?xi8>
+      "test.op"(%sv, %b) {{tag = 1 : i32}} : ({svt}, memref<?xi8>) -> ()
+    }}
+    func.return
+  }}
+}}
+"""
+                        sources.append((f"svdim:{o0},{o1}|{s0},{s1}|{idx}", text, [[900001], [3, 5], [0], [1], [2, 5]]))
     # exhaustive small scope (spec/SeqGen.tla): every loop nest skeleton of <= 4 (thorough: 5) nodes, depth <= 3, over 5 loop kinds
     # (constant / run-time bounds, lb != 0, ub not a multiple of the step, zero-trip) and 2 effect leaves
     from gen_seq import tlc_sequences
